@@ -78,3 +78,26 @@ Theorem C07_own_cnf_with_key_binding_refused :
     jhas_ "cnf" claims = true -> issue E claims paths max_decoys (Some k) header = Fail.
 Proof. exact issue_own_cnf_refused. Qed.
 Print Assumptions C07_own_cnf_with_key_binding_refused.
+
+(* "each disclosure the base64url (unpadded) encoding of a JSON array": base64url without padding as an executable
+   model (Base64.v; the RFC 4648 vectors are an Example there), tied to the library's encoder by the discbuild cases
+   (model encode of the decoded text = the library's disclosure string; model encode of the raw hash = its digest).
+   Decoding inverts encoding for every byte string, and no output character is '~' or '.', the separators of the
+   SD-JWT framing and of the compact JWS form. *)
+Require Import SDJ.Base64 SDJ.Base64Env.
+Theorem C07_base64url_decode_encode : forall s, Base64.decode (Base64.encode s) = Some s.
+Proof. exact Base64.decode_encode. Qed.
+Print Assumptions C07_base64url_decode_encode.
+
+Theorem C07_base64url_output_has_no_separator : forall s, Base64.all_chars Base64.separator_free (Base64.encode s) = true.
+Proof. exact Base64.encode_separator_free. Qed.
+Print Assumptions C07_base64url_output_has_no_separator.
+
+(* the disclosure encoding = JSON text (oracle pair ser / parse) followed by base64url: decoding inverts it, it is
+   injective and '~'-free as soon as JSON parsing inverts JSON printing *)
+Theorem C07_disclosure_encoding_invertible :
+  forall (ser : list json -> string) (parse : string -> option json),
+  (forall ps, parse (ser ps) = Some (JArr ps)) ->
+  forall ps, dec64 parse (enc64 ser ps) = DJson (JArr ps) /\ Split.contains Split.tilde (enc64 ser ps) = false.
+Proof. intros ser parse H ps. split; [apply dec64_enc64; exact H|apply enc64_tilde_free]. Qed.
+Print Assumptions C07_disclosure_encoding_invertible.
